@@ -18,7 +18,8 @@ RULE = ("energies drawn log-uniformly from [1 eV, 10 MeV] plus boundary values; 
         "positive energy; distinct = distinct (kind, rounded energy) signature; refusal cases use 0, -0.0, "
         "negatives, -inf")
 CLAUSES = ["wavelength-formula", "wavelength-decreasing", "sigma-formula", "sigma-positive",
-           "angular-sampling", "nonpositive-rejected", "object-wavelength", "object-angular-sampling"]
+           "angular-sampling", "nonpositive-rejected", "object-wavelength", "object-angular-sampling",
+           "history-wavelength", "history-sigma", "history-angular-sampling"]
 QUICK = dict(n=1500, time=40)
 THOROUGH = dict(n=480000, time=480, shards=16)
 
@@ -56,8 +57,17 @@ def gen(rng, tier):
         m = int(rng.integers(8, 40))
         return {"kind": "object", "energy": en, "gpts": [n, m],
                 "sampling": [float(rng.uniform(0.02, 0.4)), float(rng.uniform(0.02, 0.4))]}
+    if k < 0.26:
+        # history on ONE live object: the energy is re-assigned / matched several times; after every step the
+        # object's wavelength, sigma and angular sampling must be those of its *current* energy
+        n = int(rng.integers(2, 6))
+        return {"kind": "history", "obj": str(rng.choice(["accelerator", "planewave", "probe", "waves", "ctf"])),
+                "energies": [float(10 ** rng.uniform(3, 6.5)) for _ in range(n)],
+                "how": [str(rng.choice(["set", "match", "match-from"])) for _ in range(n)],
+                "gpts": [int(rng.integers(8, 30)), int(rng.integers(8, 30))],
+                "sampling": [float(rng.uniform(0.03, 0.3)), float(rng.uniform(0.03, 0.3))]}
     en = float(10 ** rng.uniform(0, 7))
-    if k < 0.22:
+    if k < 0.32:
         en = float(rng.choice([1.0, 1e-3, 1e7, 511e3, 2 * 511e3, 300e3, 80e3]))
     return {"kind": "formula", "energy": en, "factor": float(1 + 10 ** rng.uniform(-9, 0)),
             "rs": [float(10 ** rng.uniform(-4, 1)), float(10 ** rng.uniform(-4, 1))]}
@@ -65,7 +75,7 @@ def gen(rng, tier):
 
 def check(ctx, case):
     from abtem.core import energy as en_mod
-    en = case["energy"]
+    en = case.get("energy")
     if case["kind"] == "reject":
         for name in ("energy2wavelength", "energy2sigma"):
             try:
@@ -83,6 +93,50 @@ def check(ctx, case):
             ctx.expect(True, "nonpositive-rejected")
         else:
             ctx.expect(False, "nonpositive-rejected", func="angular_sampling")
+        ctx.nontrivial()
+        return
+
+    if case["kind"] == "history":
+        import abtem
+        g, sm = tuple(case["gpts"]), tuple(case["sampling"])
+        e0 = case["energies"][0]
+        kind = case["obj"]
+        if kind == "accelerator":
+            obj = en_mod.Accelerator(energy=e0)
+        elif kind == "planewave":
+            obj = abtem.PlaneWave(energy=e0, gpts=g, sampling=sm)
+        elif kind == "probe":
+            obj = abtem.Probe(energy=e0, gpts=g, sampling=sm, semiangle_cutoff=10.0)
+        elif kind == "ctf":
+            obj = abtem.CTF(energy=e0, gpts=g, sampling=sm, semiangle_cutoff=10.0)
+        else:
+            obj = abtem.Waves(np.ones(g, dtype=np.complex64), energy=e0, sampling=sm)
+        acc = obj if kind == "accelerator" else obj.accelerator
+
+        def judge(e, step):
+            ctx.close(acc.wavelength, wl_ref(e), "history-wavelength", rtol=1e-12, step=step, obj=kind)
+            ctx.close(acc.sigma, sigma_ref(e), "history-sigma", rtol=1e-10, step=step, obj=kind)
+            if kind != "accelerator":
+                ctx.close(obj.wavelength, wl_ref(e), "history-wavelength", rtol=1e-12, step=step, obj=kind)
+                want = tuple(1.0 / (n * d) * wl_ref(e) * 1e3 for n, d in zip(g, sm))
+                ctx.close(obj.angular_sampling, want, "history-angular-sampling", rtol=1e-6, step=step, obj=kind)
+
+        judge(e0, 0)
+        for i, (e, how) in enumerate(zip(case["energies"][1:], case["how"][1:]), start=1):
+            if how == "set":
+                if kind == "accelerator":
+                    obj.energy = e
+                else:
+                    obj.energy = e
+            elif how == "match":
+                acc.match(en_mod.Accelerator(energy=e))
+            else:
+                # another accelerator without energy adopts ours; ours must be unaffected, then we set
+                other = en_mod.Accelerator()
+                acc.match(other)
+                ctx.close(other.wavelength, acc.wavelength, "history-wavelength", rtol=1e-12, step=i, obj="matched-other")
+                acc.energy = e
+            judge(e, i)
         ctx.nontrivial()
         return
 
